@@ -6,6 +6,18 @@ func reg(p *PropSpec) { propSpecs[p.ID] = p }
 
 func init() {
 	reg(&PropSpec{
+		ID: "C13", Prefix: "vh_C13_",
+		Quick:    Tier{Params: map[string]int{"ref_len": 3}},
+		Thorough: Tier{Params: map[string]int{"ref_len": 4}},
+		Bounds: []string{
+			"reference strings of every length 0..ref_len, every byte an unconstrained 8-bit symbolic value (no alphabet restriction), plus the zero Ref",
+			"net/url.Parse/String/escape/unescape, strings.*, jsonreference.New/NormalizeURL, jsonpointer.New executed from SSA on the symbolic bytes",
+		},
+		Outside:     []string{"reference strings longer than ref_len bytes", "strings that are not valid UTF-8 (cannot appear in a JSON document)", "authorities with userinfo, opaque URLs (excluded by the property text)"},
+		Assumptions: []string{"vAssume(u.User == nil), vAssume(u.Opaque == \"\"): the property restricts authorities to host[:port]", "vAssume(utf8.ValidString(ref)) in the codec harness"},
+		Models:      []string{"M-regexp: the two regular expressions of jsonreference/internal as Go reference functions (harness/models.go)", "M-json: encoding/json on map[string]interface{} and string (value level; hand-built text parsed by a reference string-literal decoder)", "M-gob: gob of a []byte is the identity", "pure scalar callees (shouldEscape, ishex, unhex, ...) are summarised into ite-terms by exhaustive sub-exploration"},
+	})
+	reg(&PropSpec{
 		ID: "C20", Prefix: "vh_C20_",
 		Quick:    Tier{Params: map[string]int{"enum_max": 2, "cb_max": 2}},
 		Thorough: Tier{Params: map[string]int{"enum_max": 3, "cb_max": 3}},
